@@ -11,9 +11,13 @@
 (* iff: "" or a feature name;  keys: sequence of leaf names (list)            *)
 (* c: child statements;  gs: groupings defined inside this statement          *)
 (* ref: refines  [path, attr, val]  (uses);  aug: augments [path, c]  (uses)  *)
-(* A GROUPING is [n, c, gs].  A MODULE is                                     *)
-(*   [name, prefix, sub (TRUE for a submodule), gs, body, augs (module-level  *)
-(*    augments [path, c], path absolute), includes (names), imports           *)
+(* ty: the type statement of a leaf [p (prefix or ""), n (built-in or typedef   *)
+(* name), rng ("" or the range text), en (enums [l, v], v = -1: not stated)];  *)
+(* units;  tds: typedefs [n, ty, dflt, units] defined inside the statement;    *)
+(* et: filled in by Expand with the effective type (C02).                      *)
+(* A GROUPING is [n, c, gs, tds].  A MODULE is                                *)
+(*   [name, prefix, sub (TRUE for a submodule), gs, tds, body, augs (module-  *)
+(*    level augments [path, c], path absolute), includes (names), imports     *)
 (*    ([m, p]))].                                                             *)
 (* A MODULE SET is a function name -> module; MEANING is taken of one main    *)
 (* module under a set of enabled features.                                    *)
@@ -32,8 +36,14 @@
 (***************************************************************************)
 EXTENDS Integers, Sequences, FiniteSets, TLC
 
+NoType == [p |-> "", n |-> "", rng |-> "", en |-> << >>]
+NoEt == [base |-> "", rngs |-> << >>, en |-> << >>]
+
 St(k, n) == [k |-> k, n |-> n, ref0 |-> [p |-> "", g |-> ""], cfg |-> "", mand |-> "", dflt |-> "", desc |-> "", iff |-> "",
-             keys |-> << >>, c |-> << >>, gs |-> << >>, ref |-> << >>, aug |-> << >>]
+             keys |-> << >>, c |-> << >>, gs |-> << >>, ref |-> << >>, aug |-> << >>,
+             ty |-> NoType, units |-> "", tds |-> << >>, et |-> NoEt]
+
+Builtins == {"string", "int8", "int16", "int32", "int64", "uint8", "uint16", "uint32", "uint64", "boolean", "enumeration", "decimal64"}
 
 RECURSIVE Flatten(_)
 Flatten(ss) == IF ss = << >> THEN << >> ELSE Head(ss) \o Flatten(Tail(ss))
@@ -49,12 +59,17 @@ IndexOfName(seq, name) ==
 \* a reference is "g" or <<prefix, g>> rendered as record [p, g]; p = "" for local
 \* ENV: [ms, mod (name of the module the text is in)]
 
-ModuleGroupings(ms, name) ==
+\* the module level of the scope: what the module and its submodules define together
+ModuleLevel(ms, name) ==
     LET m == ms[name]
         owner == IF m.sub THEN m.belongs ELSE name
-        RECURSIVE Subs(_)
-        Subs(names) == IF names = << >> THEN << >> ELSE ms[Head(names)].gs \o Subs(ms[Head(names)].includes) \o Subs(Tail(names))
-    IN ms[owner].gs \o Subs(ms[owner].includes)
+        RECURSIVE SubGs(_)
+        SubGs(names) == IF names = << >> THEN << >> ELSE ms[Head(names)].gs \o SubGs(ms[Head(names)].includes) \o SubGs(Tail(names))
+        RECURSIVE SubTds(_)
+        SubTds(names) == IF names = << >> THEN << >> ELSE ms[Head(names)].tds \o SubTds(ms[Head(names)].includes) \o SubTds(Tail(names))
+    IN [gs |-> ms[owner].gs \o SubGs(ms[owner].includes), tds |-> ms[owner].tds \o SubTds(ms[owner].includes)]
+
+ModuleGroupings(ms, name) == ModuleLevel(ms, name).gs
 
 ImportedModule(ms, mod, prefix) ==
     LET m == ms[mod]
@@ -66,15 +81,50 @@ ImportedModule(ms, mod, prefix) ==
 RECURSIVE LookupIn(_, _, _)
 LookupIn(scope, name, mod) ==
     IF scope = << >> THEN [found |-> FALSE]
-    ELSE LET i == IndexOfName(Head(scope), name) IN
-         IF i > 0 THEN [found |-> TRUE, g |-> Head(scope)[i], scope |-> scope, mod |-> mod]
+    ELSE LET i == IndexOfName(Head(scope).gs, name) IN
+         IF i > 0 THEN [found |-> TRUE, g |-> Head(scope).gs[i], scope |-> scope, mod |-> mod]
          ELSE LookupIn(Tail(scope), name, mod)
 
 Lookup(ms, mod, scope, ref) ==
     IF ref.p = "" THEN LookupIn(scope, ref.g, mod)
     ELSE LET target == ImportedModule(ms, mod, ref.p) IN
          IF target = (IF ms[mod].sub THEN ms[mod].belongs ELSE mod) THEN LookupIn(scope, ref.g, mod)
-         ELSE LookupIn(<< ModuleGroupings(ms, target) >>, ref.g, target)
+         ELSE LookupIn(<< ModuleLevel(ms, target) >>, ref.g, target)
+
+\* typedefs: the same lexical rule
+RECURSIVE LookupTdIn(_, _, _)
+LookupTdIn(scope, name, mod) ==
+    IF scope = << >> THEN [found |-> FALSE]
+    ELSE LET i == IndexOfName(Head(scope).tds, name) IN
+         IF i > 0 THEN [found |-> TRUE, td |-> Head(scope).tds[i], scope |-> scope, mod |-> mod]
+         ELSE LookupTdIn(Tail(scope), name, mod)
+
+LookupTd(ms, mod, scope, ty) ==
+    IF ty.p = "" THEN LookupTdIn(scope, ty.n, mod)
+    ELSE LET target == ImportedModule(ms, mod, ty.p) IN
+         IF target = (IF ms[mod].sub THEN ms[mod].belongs ELSE mod) THEN LookupTdIn(scope, ty.n, mod)
+         ELSE LookupTdIn(<< ModuleLevel(ms, target) >>, ty.n, target)
+
+\* enum values: stated, or one more than the highest so far (RFC 7950 9.6.4.2)
+RECURSIVE NumberEnums(_, _)
+NumberEnums(en, highest) ==
+    IF en = << >> THEN << >>
+    ELSE LET e == Head(en)
+             v == IF e.v >= 0 THEN e.v ELSE highest + 1
+         IN << [l |-> e.l, v |-> v] >> \o NumberEnums(Tail(en), IF v > highest THEN v ELSE highest)
+
+\* the derivation of a type statement (RFC 7950 7.3, 9): base built-in type, the restrictions
+\* stated along the chain (nearest first), and the default / units of the nearest typedef that has one
+RECURSIVE ResolveType(_, _, _, _)
+ResolveType(ms, mod, scope, ty) ==
+    LET own == IF ty.rng = "" THEN << >> ELSE << ty.rng >> IN
+    IF ty.p = "" /\ ty.n \in Builtins
+    THEN [base |-> ty.n, rngs |-> own, en |-> NumberEnums(ty.en, -1), dflt |-> "", units |-> ""]
+    ELSE LET l == LookupTd(ms, mod, scope, ty)
+             inner == ResolveType(ms, l.mod, l.scope, l.td.ty)
+         IN [base |-> inner.base, rngs |-> own \o inner.rngs, en |-> inner.en,
+             dflt |-> IF l.td.dflt # "" THEN l.td.dflt ELSE inner.dflt,
+             units |-> IF l.td.units # "" THEN l.td.units ELSE inner.units]
 
 -----------------------------------------------------------------------------
 (* operations on expanded statement sequences by relative path *)
@@ -144,11 +194,17 @@ ExpandOne(ms, mod, on, scope, s) ==
     IF s.iff # "" /\ s.iff \notin on THEN << >>
     ELSE IF s.k = "uses" THEN
         LET l == Lookup(ms, mod, scope, s.ref0)
-            inner == Expand(ms, l.mod, on, << l.g.gs >> \o l.scope, l.g.c)
+            inner == Expand(ms, l.mod, on, << [gs |-> l.g.gs, tds |-> l.g.tds] >> \o l.scope, l.g.c)
             refined == ApplyRefines(inner, s.ref)
         IN ApplyAugs(ms, mod, on, scope, refined, s.aug)
-    ELSE LET kids == Expand(ms, mod, on, << s.gs >> \o scope, s.c) IN
-         << [s EXCEPT !.c = AsCases(s, kids), !.gs = << >>] >>
+    ELSE IF s.k \in {"leaf", "leaflist"} THEN
+        \* the type is resolved where the leaf is written; what the leaf states itself wins
+        LET r == ResolveType(ms, mod, scope, s.ty) IN
+        << [s EXCEPT !.et = [base |-> r.base, rngs |-> r.rngs, en |-> r.en],
+                     !.dflt = IF s.dflt # "" THEN s.dflt ELSE r.dflt,
+                     !.units = IF s.units # "" THEN s.units ELSE r.units] >>
+    ELSE LET kids == Expand(ms, mod, on, << [gs |-> s.gs, tds |-> s.tds] >> \o scope, s.c) IN
+         << [s EXCEPT !.c = AsCases(s, kids), !.gs = << >>, !.tds = << >>] >>
 
 \* statements use field ref0 = parsed reference (kept beside n so that no string is
 \* taken apart at evaluation time)
@@ -160,7 +216,7 @@ SubBodies(ms, on, names, what) ==
     IF names = << >> THEN << >>
     ELSE LET sm == ms[Head(names)] IN
          (IF what = "body"
-          THEN Expand(ms, Head(names), on, << ModuleGroupings(ms, Head(names)) >>, sm.body)
+          THEN Expand(ms, Head(names), on, << ModuleLevel(ms, Head(names)) >>, sm.body)
           ELSE [ i \in DOMAIN sm.augs |-> [sm.augs[i] EXCEPT !.mod = Head(names)] ])
          \o SubBodies(ms, on, sm.includes, what) \o SubBodies(ms, on, Tail(names), what)
 
@@ -168,7 +224,7 @@ RECURSIVE ApplyModuleAugs(_, _, _, _)
 ApplyModuleAugs(ms, on, seq, augs) ==
     IF augs = << >> THEN seq
     ELSE LET a == Head(augs)
-             kids == Expand(ms, a.mod, on, << ModuleGroupings(ms, a.mod) >>, a.c)
+             kids == Expand(ms, a.mod, on, << ModuleLevel(ms, a.mod) >>, a.c)
          IN ApplyModuleAugs(ms, on, AppendAt(seq, a.path, kids), Tail(augs))
 
 \* effective properties
@@ -178,11 +234,11 @@ Effective(seq, inherited) ==
         LET s == seq[i]
             cfg == IF s.cfg = "" THEN inherited ELSE (s.cfg = "true")
         IN [k |-> s.k, n |-> s.n, cfg |-> cfg, mand |-> (s.mand = "true"), dflt |-> s.dflt, desc |-> s.desc,
-            keys |-> s.keys, c |-> Effective(s.c, cfg)] ]
+            keys |-> s.keys, units |-> s.units, et |-> s.et, c |-> Effective(s.c, cfg)] ]
 
 Meaning(ms, main, on) ==
     LET m == ms[main]
-        top == << ModuleGroupings(ms, main) >>
+        top == << ModuleLevel(ms, main) >>
         own == Expand(ms, main, on, top, m.body)
         subs == SubBodies(ms, on, m.includes, "body")
         augs == [ i \in DOMAIN m.augs |-> [m.augs[i] EXCEPT !.mod = main] ] \o SubBodies(ms, on, m.includes, "augs")
@@ -191,8 +247,18 @@ Meaning(ms, main, on) ==
 -----------------------------------------------------------------------------
 (* comparison of an observed compiled tree with the meaning: first difference *)
 
-RECURSIVE Diff(_, _)
-Diff(want, got) ==
+\* cases of a choice come back through the public accessors in alphabetical order (they are
+\* kept in a map): their order is not observable and not compared
+AlignTo(want, got) ==
+    IF /\ Len(want) = Len(got)
+       /\ { want[i].n : i \in DOMAIN want } = { got[i].n : i \in DOMAIN got }
+       /\ Cardinality({ want[i].n : i \in DOMAIN want }) = Len(want)
+    THEN [ i \in DOMAIN got |-> want[CHOOSE j \in DOMAIN want : want[j].n = got[i].n] ]
+    ELSE want
+
+RECURSIVE Diff(_, _, _)
+Diff(want0, got, unordered) ==
+    LET want == IF unordered THEN AlignTo(want0, got) ELSE want0 IN
     IF Len(got) < Len(want) THEN
         (IF \E i \in DOMAIN want : \A j \in DOMAIN got : got[j].n # want[i].n THEN "node-missing" ELSE "node-count")
     ELSE IF Len(got) > Len(want) THEN
@@ -200,13 +266,17 @@ Diff(want, got) ==
     ELSE IF \E i \in DOMAIN want : want[i].n # got[i].n THEN
         (IF { want[i].n : i \in DOMAIN want } = { got[i].n : i \in DOMAIN got } THEN "order-differs" ELSE "node-name-differs")
     ELSE IF \E i \in DOMAIN want : want[i].k # got[i].k THEN "kind-differs"
-    ELSE IF \E i \in DOMAIN want : want[i].cfg # got[i].cfg THEN "config-differs"
+    ELSE IF \E i \in DOMAIN want : want[i].k # "case" /\ want[i].cfg # got[i].cfg THEN "config-differs"
     ELSE IF \E i \in DOMAIN want : want[i].mand # got[i].mand THEN "mandatory-differs"
     ELSE IF \E i \in DOMAIN want : want[i].dflt # got[i].dflt THEN "default-differs"
     ELSE IF \E i \in DOMAIN want : want[i].desc # got[i].desc THEN "description-differs"
     ELSE IF \E i \in DOMAIN want : want[i].keys # got[i].keys THEN "keys-differ"
-    ELSE IF \E i \in DOMAIN want : Diff(want[i].c, got[i].c) # "ok" THEN
-        Diff(want[CHOOSE i \in DOMAIN want : Diff(want[i].c, got[i].c) # "ok"].c,
-             got[CHOOSE i \in DOMAIN want : Diff(want[i].c, got[i].c) # "ok"].c)
+    ELSE IF \E i \in DOMAIN want : want[i].units # got[i].units THEN "units-differ"
+    ELSE IF \E i \in DOMAIN want : want[i].et.base # got[i].et.base THEN "base-type-differs"
+    ELSE IF \E i \in DOMAIN want : want[i].et.rngs # got[i].et.rngs THEN "accumulated-ranges-differ"
+    ELSE IF \E i \in DOMAIN want : want[i].et.en # got[i].et.en THEN "enum-values-differ"
+    ELSE IF \E i \in DOMAIN want : Diff(want[i].c, got[i].c, want[i].k = "choice") # "ok" THEN
+        LET i == CHOOSE i \in DOMAIN want : Diff(want[i].c, got[i].c, want[i].k = "choice") # "ok"
+        IN Diff(want[i].c, got[i].c, want[i].k = "choice")
     ELSE "ok"
 =============================================================================
